@@ -13,10 +13,10 @@
       invariant (C03/C04/C06/C09/C19 carry those theorems), a documented finding, or "monitored only";
     * every invariant route registered with the crisis keeper (Generated/C02Wiring.lean) must be covered by the
       inductive-invariant theorems of its owning property (C03, C07, C10, C11).
-  The full statement is FALSE on the current code: two reviewed sites are findings (F2 cdp debt split,
-  F11 kavadist partner rewards); the F10 site (issuance seizure of locked coins) sits in a blocker that is
-  never called; F12 (kavadist nil amount on a zero mint) has been fixed in /repo and is now a theorem.
-  For F2 and F11 the arithmetic is transcribed and the counterexample proved here; the witnesses are replayed on the real app by harness/cmd/c02.
+  The full statement is FALSE on the current code at one reviewed site (F11 kavadist partner rewards, a
+  configuration); the F10 site (issuance seizure of locked coins) sits in a blocker that is never called;
+  F2 (cdp debt split) and F12 (kavadist nil amount on a zero mint) have been fixed in /repo and are now
+  theorems. For F2, F11 and F12 the arithmetic is transcribed and the theorem / counterexample proved here; the witnesses are replayed on the real app by harness/cmd/c02.
   PARTIAL: SDK invariants (bank, staking, distribution), the SDK's own begin/end blockers, gas, and the
   modules' full transition systems are not modelled here; they are explored by the history runner, which
   asserts every registered invariant after every EndBlock and treats any begin/end-block panic as a violation.
@@ -44,10 +44,10 @@ theorem C02_sites_nonempty :
            "community.BeginBlocker", "hard.BeginBlocker", "incentive.BeginBlocker",
            "kavadist.BeginBlocker", "pricefeed.EndBlocker"], b ∈ wiredBlockers := by decide +kernel
 
-/-- exactly two reviewed sites are NOT discharged: they fire on reachable states (findings F2, F11).
+/-- exactly one reviewed site is NOT discharged: it fires on a reachable configuration (finding F11).
     The prose property is false at these sites; see the counterexamples below and findings/C02-*.md. -/
 theorem C02_undischarged_sites_are_the_known_findings :
-    findingSites = [("x/cdp", "k.LiquidateCdps"), ("x/kavadist", "k.MintPeriodInflation")] := by decide +kernel
+    findingSites = [("x/kavadist", "k.MintPeriodInflation")] := by decide +kernel
 
 /-- DESIGN F10 settled: the issuance begin blocker (seizure of blocked addresses, which would panic on
     vesting-locked coins) is defined but never called — `AppModule.BeginBlock` of x/issuance is empty. It is
@@ -76,31 +76,28 @@ theorem C02_blocker_order :
     before initGenesisOrder "cdptypes.ModuleName" "incentivetypes.ModuleName" = true ∧
     before initGenesisOrder "banktypes.ModuleName" "precisebanktypes.ModuleName" = true := by decide +kernel
 
-/-! ## F2 — cdp liquidation: the per-deposit debt split -/
+/-! ## F2 (fixed by bfd342e03) — cdp liquidation: the per-deposit debt split -/
 
-/-- FULL STATEMENT (false on the current code): the debt shares handed to the per-deposit collateral
-    auctions never exceed the debt the liquidator received:
-      `∀ deps debt, (∀ d ∈ deps, 0 < d) → 0 ≤ debt → sumInts (debtShares deps debt) ≤ debt`.
-    Counterexample: two equal deposits, debt 10000003 → 5000002 + 5000002 = 10000004. The second
-    `StartCollateralAuction` then finds the liquidator one debt coin short and the begin blocker panics. -/
-theorem C02_cdp_debt_split_counterexample :
-    ¬ (∀ (deps : List Int) (debt : Int), (∀ d ∈ deps, 0 < d) → 0 ≤ debt → sumInts (debtShares deps debt) ≤ debt) := by
-  intro h
-  have := h [3000000, 3000000] 10000003 (by decide) (by decide)
-  revert this
-  decide +kernel
+/-- The debt shares handed to the per-deposit collateral auctions add up to exactly the debt the liquidator
+    received in `SeizeCollateral` — for every deposit set and every debt — so the auctions can always be
+    funded and `LiquidateCdps` cannot fail for lack of debt coins. -/
+theorem C02_cdp_debt_split_exact (deps : List Int) (debt : Int) (h : deps ≠ []) :
+    sumInts (debtShares deps debt) = debt := by
+  unfold debtShares
+  exact splitCapped_sum _ _ _ _ h
 
-/-- the witness in numbers -/
-theorem C02_cdp_debt_split_witness : debtShares [3000000, 3000000] 10000003 = [5000002, 5000002] := by decide +kernel
+/-- non-vacuity on the former witness: two equal deposits, debt 10000003 -/
+example : debtShares [3000000, 3000000] 10000003 = [5000002, 5000001] := by decide +kernel
 
-/-- PARTIAL: with a single deposit the share is exactly the debt (the common case: only the owner deposited) -/
-theorem C02_cdp_debt_split_single_partial (d debt : Int) (hd : 0 < d) :
-    debtShares [d] debt = [debt] := by
-  unfold debtShares sumInts debtShare
-  simp only [List.foldl_cons, List.foldl_nil, Int.zero_add, List.map_cons, List.map_nil]
-  rw [quo_self d hd, mul_one_round]
+/-- with a single deposit the share is the debt -/
+theorem C02_cdp_debt_split_single (d debt : Int) : debtShares [d] debt = [debt] := by
+  unfold debtShares splitCapped; rfl
 
-example : debtShares [7] 10000003 = [10000003] := C02_cdp_debt_split_single_partial 7 10000003 (by decide)
+/-- what the fix repaired (finding F2, reproduced on the unfixed tree as a begin-block panic "spendable
+    balance 5000001debt is smaller than 5000002debt"): independently rounded shares can exceed the debt -/
+theorem C02_cdp_debt_split_before_fix_witness :
+    debtSharesBeforeFix [3000000, 3000000] 10000003 = [5000002, 5000002] ∧
+    sumInts (debtSharesBeforeFix [3000000, 3000000] 10000003) > 10000003 := by decide +kernel
 
 /-! ## F12 (fixed) and F11 — kavadist infrastructure periods -/
 
